@@ -1287,6 +1287,7 @@ package pokertable
 //@ func (*tableEngine).tableGameOpen
 //@   property C07 C08 C16
 //@   returns err
+//@   logged
 //@   config M 2..10 quick 2..4 : te.table.Meta.TableMaxSeatCount = M, te.sm.MaxSeat = M, len(te.sm.SeatData) = M
 //@   requires TableWF(te) && Coupled(te) && St(te).BlindState != nil && te.gameBackend != nil && !held(te.lock) && LabelsBounded(te)
 //@   requires te.table.Meta.Rule == CompetitionRule_Default && te.sm.Rule == "default"     // default-rule tables
@@ -1301,6 +1302,20 @@ package pokertable
 //@   ensures old-table-object-untouched: old(St(te).Status) == old(te.table).State.Status && old(St(te).GameCount) == old(te.table).State.GameCount
 //@   ensures each-open-counts-once: te.table != old(te.table) ==> St(te).GameCount == old(St(te).GameCount) + 1 && te.table.ID == old(te.table.ID)
 //@   ensures break-opens-nothing: old(St(te).BlindState.Level) == -1 ==> unchanged(te.table) && unchanged(te.game)
+//@   ensures table-still-there: te.table != nil && St(te) != nil
+
+// the open-game gate's completion closure (registered by CreateTable): the link between "the gate fired" and "the open is attempted"
+//@ func (*tableEngine).CreateTable$1
+//@   property C08
+//@   config M 2..10 quick 2..4 : te.table.Meta.TableMaxSeatCount = M, te.sm.MaxSeat = M, len(te.sm.SeatData) = M
+//@   requires TableWF(te) && Coupled(te) && St(te).BlindState != nil && te.gameBackend != nil && !held(te.lock) && LabelsBounded(te)
+//@   requires te.table.Meta.Rule == CompetitionRule_Default && te.sm.Rule == "default"     // default-rule tables
+//@   requires 0 <= len(state.Participants)
+//@   modifies te.table, te.game, te.sm.DealerSeatID, te.sm.SBSeatID, te.sm.BBSeatID, te.sm.IsInit, forall(s, 0, M, te.sm.SeatData[s].IsBetweenDealerBB), log
+//@   ensures fewer-than-two-participants-opens-nothing: len(state.Participants) <= 1 ==> noCall() && unchanged(te.table) && unchanged(te.game)
+//@   ensures two-or-more-participants-attempt-the-open: len(state.Participants) >= 2 ==> ncalls() > old(ncalls())
+//@             && callfn(old(ncalls())) == "(*pokertable.tableEngine).tableGameOpen" && callrecv(old(ncalls())) == ref(te)
+//@   ensures opens-at-most-one-hand: St(te).GameCount == old(St(te).GameCount) || St(te).GameCount == old(St(te).GameCount) + 1
 
 // ---- arrivals, re-buys, add-ons (C01 C03 C05 C16) ------------------------------------------------------
 
